@@ -13,7 +13,8 @@
 //
 // slots : numerical tag k -> k ; cell tag (ct,k) -> 16+64*ct+k ; face tag (ct,ft,k) -> 16+64*ct+16+8*ft+k
 // iin   : [0] nb cell types (0..4)  [1..4] nb face types per cell type (0..6)  [5] omitted slot (-1 none,
-//         -2 numerical_parameters section, -3 cell_types section, -(10+ct) face_types section of cell type ct)
+//         -2 numerical_parameters section, -3 cell_types section, -(10+ct) face_types section of cell type ct,
+//         -100-slot: the tag is present but empty, <tag></tag>)
 //         [6] INF modes, 2 bits per (ct, j) j=0 max_inner_pressure j=1 avg_division_volume: 0 number 1 "INF" 2 "inf" 3 "Inf"
 //         [7] tag order seed (native only)   [8+slot] value of integer tags
 #include "common.hpp"
@@ -107,6 +108,7 @@ const XMLElement* XMLNode::NextSiblingElement(const char* name) const {
 const char* XMLElement::GetText() const {
     const fake* f = (const fake*) this;
     if (f->kind != K_LEAF) return nullptr;
+    if (g_io->iin[5] == -100 - f->slot) return nullptr;          // <tag></tag>: tinyxml2 returns a null pointer for an element without text
     if (f->mode) return INF_TXT[f->mode];
     char* t = g_text[f - g_fakes];
     int p = 0; t[p++] = (f->kd == 's') ? 's' : '@';
@@ -144,6 +146,7 @@ static void shuffle(std::vector<int>& v, unsigned long& seed) {
 }
 static void emit(FILE* fp, const char* tag, char kd, int slot, int mode, const vio* io) {
     if (io->iin[5] == slot) return;
+    if (io->iin[5] == -100 - slot) { fprintf(fp, "  <%s></%s>\n", tag, tag); return; }
     if (mode) fprintf(fp, "  <%s>%s</%s>\n", tag, INF_TXT[mode], tag);
     else if (kd == 's') fprintf(fp, "  <%s>s%d</%s>\n", tag, slot, tag);
     else if (kd == 'i') fprintf(fp, "  <%s>%ld</%s>\n", tag, io->iin[IBASE + slot], tag);
